@@ -171,7 +171,7 @@ _BASE = {
     "size_t": (64, False), "ssize_t": (64, True), "off_t": (64, True),
     "int8_t": (8, True), "uint8_t": (8, False), "int16_t": (16, True), "uint16_t": (16, False),
     "int32_t": (32, True), "uint32_t": (32, False), "int64_t": (64, True), "uint64_t": (64, False),
-    "tsk_bookmark_id_t": (32, True), "ptrdiff_t": (64, True), "uintptr_t": (64, False),
+    "tsk_bookmark_id_t": (32, True), "tsk_bool_t": (8, False), "ptrdiff_t": (64, True), "uintptr_t": (64, False),
     "__int128": (128, True), "unsigned __int128": (128, False),
 }
 
